@@ -461,6 +461,13 @@ func GenPlan(prop string, seed uint64) *Plan {
 			budget--
 		}
 	}
+	if (prop == "C10" || prop == "C06") && mix(p.Inner, 0x6d657472)%3 == 0 {
+		// throughput, consensus-latency and view-timeout measurements enabled (handlers of the experiment framework)
+		if p.Knobs == nil {
+			p.Knobs = map[string]int{}
+		}
+		p.Knobs["metrics"] = 1
+	}
 	if prop == "C10" && mix(p.Inner, 0x6c61746d)%3 == 0 {
 		// the servers emulate wide-area latencies (an option of the real server; zero delay here)
 		if p.Knobs == nil {
